@@ -675,6 +675,54 @@ def _ntline_probe(spec):
     return lines
 
 
+NTDOC_MAX_TRIPLES = 14
+
+
+def _ntdoc_probe(spec):
+    """The whole N-Triples document rdflib writes for the graph, read by the model's document reader (`readDoc`: the line
+    grammar per line, blank-node labels through the per-document table); the observation is whether the graph the model
+    read is isomorphic to the graph rdflib's own reader builds from the same text, and its size."""
+    trs = spec["triples"]
+    if not trs or len(trs) > NTDOC_MAX_TRIPLES:
+        return []
+    if any(x[0] == "l" and (x[3] == "" or (len(x) > 4 and x[4] == "raw")) for tr in trs for x in tr):
+        return []
+    try:
+        g = gg.build(spec)
+        text = g.serialize(format="nt")
+        n = len(Graph().parse(data=text, format="nt"))
+    except Exception:
+        return []
+    return [(f"ntdoc {cps(text)}", f"iso {n}", "ntdoc")]
+
+
+def _ntdoc_read_back(out, line):
+    """model output `ok N S P O …` -> rdflib graph; compared (isomorphism) with rdflib's reading of the same document"""
+    try:
+        w = out.split(" ")
+        if w[0] != "ok":
+            return out
+        n, terms = int(w[1]), w[2:]
+        mg = Graph()
+        for k in range(n):
+            tr = []
+            for t in terms[3 * k:3 * k + 3]:
+                f = t.split(":")
+                if f[0] == "i":
+                    tr.append(URIRef(uncps(f[1])))
+                elif f[0] == "b":
+                    tr.append(BNode("m" + f[1]))
+                else:
+                    tr.append(Literal(uncps(f[1]), datatype=URIRef(uncps(f[2])) if f[2] != "*" else None,
+                                      lang=uncps(f[3]) if f[3] != "*" else None, normalize=False))
+            mg.add(tuple(tr))
+        text = uncps(line.split(" ", 1)[1])
+        rg = Graph().parse(data=text, format="nt")
+        return f"iso {len(mg)}" if isoutil.iso(mg, rg) else f"differ {len(mg)} {len(rg)}"
+    except Exception as e:  # noqa: BLE001
+        return "none " + _exc(e)
+
+
 def _ntrow_read_back(out):
     try:
         h = Graph().parse(data=uncps(out), format="nt", bnode_context=_KeepLabels())
@@ -963,12 +1011,14 @@ def run_impl(case):
     r2 = case.get("round2")
     if r2:
         viol += _round2(g, spec, r2, fmts, stats, case.get("opts") or {})
-    probe = _probe(spec) + _hext_probe(spec) + _ntline_probe(spec)
+    probe = _probe(spec) + _hext_probe(spec) + _ntline_probe(spec) + _ntdoc_probe(spec)
     sprobe = _struct_probe(spec) + _base_probe(spec)
     obs = [exp for _l, exp, _p in probe] + [exp for _l, exp in sprobe]
     stats["probe_base"] = sum(1 for l, _e in sprobe if l.startswith("strip"))
     stats["probe_base_rel"] = sum(1 for l, e in sprobe if l.startswith("strip") and e == "rel")
     stats["probe_hext"] = sum(1 for l, _e, _p in probe if l.startswith("hext"))
+    stats["probe_ntdoc"] = sum(1 for l, _e, _p in probe if l.startswith("ntdoc"))
+    stats["probe_ntdoc_bnodes"] = sum(1 for l, _e, _p in probe if l.startswith("ntdoc") and ",95,58," in l)
     stats["probe_ntline"] = sum(1 for l, _e, _p in probe if l.startswith("ntparse"))
     stats["probe_lines"] = len(probe)
     stats["probe_isValidList"] = sum(1 for l, _e in sprobe if l.startswith("vl "))
@@ -1180,16 +1230,19 @@ _CTX_PREFIXES = [["ex", gg.NAMESPACES[0]], ["a", gg.NAMESPACES[1]], ["b", gg.NAM
 
 
 def model_lines(case):
-    return ([l for l, _e, _p in _probe(case["spec"]) + _hext_probe(case["spec"]) + _ntline_probe(case["spec"])]
+    return ([l for l, _e, _p in _probe(case["spec"]) + _hext_probe(case["spec"]) + _ntline_probe(case["spec"])
+             + _ntdoc_probe(case["spec"])]
             + [l for l, _e in _struct_probe(case["spec"]) + _base_probe(case["spec"])])
 
 
 def select_model_obs(case, out):
     """The model's own encodings (`ntenc`, `tenc`) are handed to rdflib's readers; the observation is what they read."""
     res = []
-    probe = _probe(case["spec"]) + _hext_probe(case["spec"]) + _ntline_probe(case["spec"])
+    probe = _probe(case["spec"]) + _hext_probe(case["spec"]) + _ntline_probe(case["spec"]) + _ntdoc_probe(case["spec"])
     for (_l, _e, post), o in zip(probe, out):
-        if post == "hext" and o != "bad-op":
+        if post == "ntdoc" and o != "bad-op":
+            res.append(_ntdoc_read_back(o, _l))
+        elif post == "hext" and o != "bad-op":
             res.append(_hext_read_back(o))
         elif post == "ntrow" and o != "bad-op":
             res.append(_ntrow_read_back(o))
